@@ -729,8 +729,12 @@ Proof.
 Qed.
 
 (* ---------- OPT ---------- *)
-Definition opts_ok (os : list (Z * list Z)) : Prop :=
-  Forall (fun cd => opt_dec (fst cd) (snd cd) = Ok (snd cd)) os.
+(* an option in the octets its class renders: REPORTCHANNEL carries an uncompressed absolute name, every
+   other code is a fixed point of MessageM.opt_dec *)
+Definition opt_wf (cd : Z * list Z) : Prop :=
+  if fst cd =? 18 then exists n, name_ok n /\ snd cd = wire_labels false n
+  else opt_dec (fst cd) (snd cd) = Ok (snd cd).
+Definition opts_ok (os : list (Z * list Z)) : Prop := Forall opt_wf os.
 
 Lemma opts_loop_read : forall os wb pre post fuel acc,
   opts_wire os = Ok wb -> opts_ok os -> (length wb < fuel)%nat ->
@@ -763,7 +767,27 @@ Proof.
       by (rewrite !app_length; cbn [length MessageM.u16]; lia).
     replace (Z.to_nat (zlen data)) with (length data) by (unfold zlen; rewrite Nat2Z.id; reflexivity).
     rewrite rd_bytes_at by (rewrite !app_length; cbn [length MessageM.u16]; lia). cbn [bind].
-    rewrite O1. cbn [bind].
+    assert (ED : (if code =? 18
+                  then do nc <- nm_from_wire ((pre ++ MessageM.u16 code ++ MessageM.u16 (zlen data)) ++ data ++ rest ++ post)
+                                             (length (pre ++ MessageM.u16 code ++ MessageM.u16 (zlen data)) + length data)
+                                             (length (pre ++ MessageM.u16 code ++ MessageM.u16 (zlen data)));
+                       if Nat.eqb (snd nc) (length (pre ++ MessageM.u16 code ++ MessageM.u16 (zlen data)) + length data)
+                       then Ok (wire_labels false (fst nc)) else Lib eFormError
+                  else opt_dec code data) = Ok data).
+    { unfold opt_wf in O1. cbn [fst snd] in O1. destruct (code =? 18); [|exact O1].
+      destruct O1 as (n & NO & ->).
+      set (F := pre ++ MessageM.u16 code ++ MessageM.u16 (zlen (wire_labels false n))) in *.
+      assert (EM : nm_em n None false (zlen F) [] = Ok (wire_labels false n, [])).
+      { unfold nm_em. rewrite (full_labels_abs n None NO). reflexivity. }
+      destruct (nm_em_sound_sim n None n false F [] _ _ (proj1 (TableSound_nil F)) (full_labels_abs n None NO) NO EM)
+        as (_ & L' & SL & NO1 & D1).
+      cbn [Lsim] in SL. subst L'.
+      replace (F ++ wire_labels false n ++ rest ++ post) with ((F ++ wire_labels false n) ++ (rest ++ post))
+        by (rewrite <- !app_assoc; reflexivity).
+      replace (length F + length (wire_labels false n))%nat with (length (F ++ wire_labels false n)) by (rewrite app_length; reflexivity).
+      rewrite (nm_read F (wire_labels false n) (rest ++ post) _ n NO1 D1) by lia.
+      cbn [bind fst snd]. rewrite Nat.eqb_refl. reflexivity. }
+    rewrite ED. cbn [bind].
     replace ((pre ++ MessageM.u16 code ++ MessageM.u16 (zlen data)) ++ data ++ rest ++ post)
       with ((pre ++ MessageM.u16 code ++ MessageM.u16 (zlen data) ++ data) ++ rest ++ post)
       by (rewrite <- !app_assoc; reflexivity).
